@@ -60,6 +60,12 @@ def main():
     head = sh("git -C /repo rev-parse --short HEAD")[1].strip()
     for d in dirs:
         f = os.path.join(d, "patch.diff")
+        try:
+            import json
+            if json.load(open(os.path.join(d, "meta.json"))).get("obsolete"):
+                continue
+        except (OSError, ValueError):
+            pass
         if sh("git -C /repo apply --check %s" % f)[0] == 0:
             continue
         wt = "/root/scratch/rebase-%d" % os.getpid()
